@@ -761,6 +761,9 @@ func Self() string {
 // Choose returns a value in [0,n) chosen by the explorer (0 in pass-through mode).
 func Choose(n int, label string) int {
 	s := cur
+	if s == nil && free != nil && n > 1 {
+		return freeChoose(n)
+	}
 	if s == nil || n <= 1 {
 		return 0
 	}
@@ -772,6 +775,9 @@ func Choose(n int, label string) int {
 func Quiesce(label string) {
 	s := cur
 	if s == nil {
+		if free != nil {
+			freeQuiesce()
+		}
 		return
 	}
 	s.yield(&Op{kind: opQuiesce, label: label})
@@ -790,6 +796,9 @@ func Global(label string) {
 func GlobalWhen(label string, enabled func() bool) {
 	s := cur
 	if s == nil {
+		if free != nil && enabled != nil {
+			freeWait(enabled)
+		}
 		return
 	}
 	s.yield(&Op{kind: opGlobal, label: label, enabled: enabled})
@@ -818,6 +827,12 @@ func ClockOp(write bool, label string) {
 func SyncOp(obj any, write bool, label string, enabled func() bool) {
 	s := cur
 	if s == nil {
+		if free != nil { // harness-level wait: poll the condition
+			if enabled != nil {
+				freeWait(enabled)
+			}
+			return
+		}
 		panic("vsched.SyncOp in pass-through mode")
 	}
 	s.keep[objID(obj)] = obj
